@@ -8,6 +8,7 @@ import (
 	"context"
 	"encoding/json"
 	"fmt"
+	"sync"
 
 	apierrors "k8s.io/apimachinery/pkg/api/errors"
 	metav1 "k8s.io/apimachinery/pkg/apis/meta/v1"
@@ -108,6 +109,10 @@ type Server struct {
 	FaultOnlyResource string
 	// optional second fault of the same run (FaultKind2 == FaultNone: none)
 	FaultAt2, FaultKind2 int
+
+	// Mu serialises the requests (the verbs may be called from several
+	// goroutines: concurrent syncs, per-revision hook calls).
+	Mu sync.Mutex
 }
 
 func NewServer() *Server {
@@ -237,6 +242,8 @@ func controllerRefCount(o *unstructured.Unstructured) int {
 }
 
 func (c *rc) Create(ctx context.Context, obj *unstructured.Unstructured, options metav1.CreateOptions, subresources ...string) (*unstructured.Unstructured, error) {
+	c.s.Mu.Lock()
+	defer c.s.Mu.Unlock()
 	req, err := c.begin("create", obj.GetName(), "")
 	req.Body = obj.DeepCopy()
 	if err != nil {
@@ -267,6 +274,8 @@ func (c *rc) Create(ctx context.Context, obj *unstructured.Unstructured, options
 }
 
 func (c *rc) update(obj *unstructured.Unstructured, sub string) (*unstructured.Unstructured, error) {
+	c.s.Mu.Lock()
+	defer c.s.Mu.Unlock()
 	req, err := c.begin("update", obj.GetName(), sub)
 	req.Body = obj.DeepCopy()
 	if err != nil {
@@ -337,6 +346,8 @@ func (c *rc) UpdateStatus(ctx context.Context, obj *unstructured.Unstructured, o
 }
 
 func (c *rc) Delete(ctx context.Context, name string, options metav1.DeleteOptions, subresources ...string) error {
+	c.s.Mu.Lock()
+	defer c.s.Mu.Unlock()
 	req, err := c.begin("delete", name, "")
 	if options.Preconditions != nil && options.Preconditions.UID != nil {
 		u := *options.Preconditions.UID
@@ -376,6 +387,8 @@ func (c *rc) DeleteCollection(ctx context.Context, options metav1.DeleteOptions,
 }
 
 func (c *rc) Get(ctx context.Context, name string, options metav1.GetOptions, subresources ...string) (*unstructured.Unstructured, error) {
+	c.s.Mu.Lock()
+	defer c.s.Mu.Unlock()
 	req, err := c.begin("get", name, "")
 	if err != nil {
 		return nil, err
@@ -398,6 +411,8 @@ func (c *rc) Watch(ctx context.Context, opts metav1.ListOptions) (watch.Interfac
 const LastAppliedAnnotation = "metacontroller.k8s.io/last-applied-configuration"
 
 func (c *rc) Patch(ctx context.Context, name string, pt types.PatchType, data []byte, options metav1.PatchOptions, subresources ...string) (*unstructured.Unstructured, error) {
+	c.s.Mu.Lock()
+	defer c.s.Mu.Unlock()
 	req, err := c.begin("patch", name, "")
 	req.FieldManager = options.FieldManager
 	req.Force = options.Force != nil && *options.Force
